@@ -967,8 +967,19 @@ def b_track_note(tier, rnd):
                     x.octave = o
                     x.channel, x.velocity = ch, vel
                     cases.append((t, x))
+                    if o in (0, 4) and vel in (0, 64, 127):      # the same with a pending instrument change
+                        t2 = _tracks()[t_i]
+                        t2.change_instrument, t2.instrument = True, (len(n) * 37 + ch) % 128
+                        cases.append((t2, x))
     return {"rule": "3 tracks (different pending delta / existing data) x 21 names x octaves -2..10 x 5 channel/velocity pairs "
-                    "incl. out-of-range", "cases": cases}
+                    "incl. out-of-range; in-range cases also with a pending instrument change", "cases": cases}
+
+
+@battery("track_3ints_b")
+def b_track_3ints_b(tier, rnd):
+    vals = [-1, 0, 1, 15, 16, 127, 128]
+    return {"rule": "5 pending delta times x channel x program x bank over boundary values",
+            "cases": [(t, a, b, c) for t in _tracks() for a in vals for b in vals for c in (0, 1, 127, 128)]}
 
 
 @battery("track_nc")
